@@ -56,7 +56,7 @@ func c15RuleSets(up string) []*rconfig.RuleSet {
 		}
 		rs.Rules = append(rs.Rules, rconfig.Rule{ID: rw.ID, EncodedSlashesHandling: rconfig.EncodedSlashesHandling(rw.Slashes),
 			Matcher: rconfig.Matcher{Routes: []rconfig.Route{{Path: "/" + rw.ID + "/**"}}}, Backend: be,
-			Execute: []config.MechanismConfig{{"authenticator": "anon"}, {"finalizer": "hdrs"}}})
+			Execute: []config.MechanismConfig{{"authenticator": "anon"}, {"finalizer": "hdrs"}, {"finalizer": "roles2"}}})
 		if i%2 == 1 {
 			// every second rule has a pipeline which reads the request body (heimdall then buffers it instead of streaming it)
 			rl := &rs.Rules[len(rs.Rules)-1]
@@ -197,7 +197,11 @@ func TestC15(t *testing.T) {
 			for k, v := range c15PipelineHeaders {
 				hs[k] = v
 			}
+			// X-Roles is produced by two steps of the pipeline (how several values reach the upstream is C13's subject;
+			// here: whatever arrives comes from the pipeline, nothing from the client)
+			hs["X-Roles"] = "pipeline-first"
 			c.Prototypes.Finalizers = append(c.Prototypes.Finalizers, config.Mechanism{ID: "hdrs", Type: "header", Config: config.MechanismConfig{"headers": hs}})
+			c.Prototypes.Finalizers = append(c.Prototypes.Finalizers, config.Mechanism{ID: "roles2", Type: "header", Config: config.MechanismConfig{"headers": map[string]any{"X-Roles": "pipeline-second"}}})
 			c.Prototypes.Finalizers = append(c.Prototypes.Finalizers, config.Mechanism{ID: "bodyreader", Type: "header",
 				Config: config.MechanismConfig{"headers": map[string]any{"X-Verif-Body-Read": "{{ if .Request.Body }}non-empty{{ else }}empty{{ end }}"}}})
 			if trusted {
@@ -257,7 +261,12 @@ func TestC15(t *testing.T) {
 			hdrs = append(hdrs, app.Hdr{Name: "Content-Type", Value: ct})
 		}
 		collide := false
+		names := []string{"X-Roles"}
 		for name := range c15PipelineHeaders {
+			names = append(names, name)
+		}
+		sort.Strings(names)
+		for _, name := range names {
 			if rng.IntN(3) == 0 {
 				collide = true
 				for k := 1 + rng.IntN(2); k > 0; k-- {
@@ -411,6 +420,15 @@ func TestC15(t *testing.T) {
 			if len(got) != 1 || got[0] != want {
 				r.Violation("pipeline-header-not-winning:"+name, fmt.Sprintf("upstream %s = %q, pipeline value %q", name, got, want), cs)
 			}
+		}
+		for _, v := range h.Header["X-Roles"] {
+			if !strings.HasPrefix(v, "pipeline-") {
+				r.Violation("pipeline-header-not-winning:X-Roles", fmt.Sprintf("upstream X-Roles = %q: only the values produced by the pipeline may arrive", h.Header["X-Roles"]), cs)
+				break
+			}
+		}
+		if len(h.Header["X-Roles"]) == 0 {
+			r.Violation("pipeline-header-not-winning:X-Roles", "the header produced by two pipeline steps did not arrive at all", cs)
 		}
 		if collide {
 			r.Count("colliding_header_requests", 1)
